@@ -401,6 +401,7 @@ def run(ctx):
                    {"compared_functions": stats["compared_functions"], "expected": expected_fns,
                     "rejected_by_compiler": stats["rejected_by_compiler"], "untraceable": stats["untraceable"],
                     "first_compiler_error": first_err}, found_input=False)
+    deferred_proof_broken = False
     # ---- verdict on the proof side ------------------------------------------------------
     if not info["ok"]:
         if spec_fail:
@@ -411,9 +412,7 @@ def run(ctx):
                         "coq_error": vlib.CoqResult(False, info["log"]).error_excerpt(),
                         "replay": "PYTHONPATH=/verif/tools:<repo>/guppylang/src:<repo>/guppylang-internals/src /venv/bin/python /verif/props/C07/impl_functy.py <<< '[case]'"})
         elif wb_dis == 0 and tv_dis == 0:
-            ctx.report(("translator:" + tr_err) if tr_err else "proof-broken:" + str(info["failed"]), "proof-broken", str(info["failed"]),
-                       {"coq_error": vlib.CoqResult(False, info["log"]).error_excerpt(),
-                        "searched": {"row_cases": len(tvc), "programs": len(cases)}}, found_input=False)
+            deferred_proof_broken = True
     elif spec_fail:
         c, i, s = spec_fail[0]
         ctx.report(f"spec:{json.dumps(c, sort_keys=True)}", "counterexample",
@@ -421,7 +420,68 @@ def run(ctx):
                    {"case": c, "implementation": i, "required_[ins,outs]": s})
     if not model_ok and info["ok"]:
         ctx.report("model-eval", "proof-broken", "model evaluation failed", {"notes": notes}, found_input=False)
+    # ---- borrowing calls inside comprehensions: every leaf of the lent place is loop-carried ------
+    cp = gen_extra.comprehension_cases(vlib.rng(ctx.seed, "C07-cp"), 18 if ctx.quick else 36)
+    cpb = [[{k: c[k] for k in ("id", "src", "entry", "funcs", "mode")} for c in cp[i:i + 4]] for i in range(0, len(cp), 4)]
+    cimpl = {}
+    with ThreadPoolExecutor(max_workers=12) as ex:
+        for out in ex.map(lambda b: ctx.impl("impl_writeback.py", b), cpb):
+            cimpl.update(json.loads(out))
+    cp_bad, cp_ok, cp_leaves = 0, 0, 0
+
+    def sub(tree, path):
+        for i in path:
+            if "p" not in tree or i >= len(tree["p"]):
+                return None
+            tree = tree["p"][i]
+        return tree
+
+    def direct(tree):
+        return sorted([a for a in tree.get("s", [])] if tree and "s" in tree else [["?"]], key=str) if tree is None or "s" not in tree else \
+            sorted([a for a in tree["s"] if a[0] in ("i", "o")], key=str)
+    for c in cp:
+        res = cimpl.get(c["id"], {})
+        f = res.get("funcs", {}).get("main", {}) if res.get("ok") else {}
+        problems = []
+        if "dep_outs" not in f:
+            problems.append({"error": res.get("error") or f.get("error") or "not traced"})
+        else:
+            for l in c["lent"]:
+                calls = [k for k in f["calls"] if k["in_loop"] and (k["callee"] or "").split(".")[-1] == l["callee"]]
+                if len(calls) != 1:
+                    problems.append({"error": f"{len(calls)} calls of {l['callee']} inside the loop"})
+                    continue
+                call, arg = calls[0], (0 if l["port"] == 1 else 2)
+                for leaf in l["leaves"]:
+                    cp_leaves += 1
+                    want = sorted([["i", l["param"], l["path"] + leaf], ["o", call["idx"], l["port"], leaf]], key=str)
+                    after = direct(sub(f["dep_outs"][l["param"]], l["path"] + leaf))
+                    fed = direct(sub(call["inputs"][arg], leaf)) if arg < len(call["inputs"]) else None
+                    if after != want:
+                        problems.append({"leaf": l["path"] + leaf, "of_parameter": l["param"], "what": "value the caller holds after the comprehension",
+                                         "must_come_directly_from": want, "comes_directly_from": after})
+                    if fed != want:
+                        problems.append({"leaf": l["path"] + leaf, "of_parameter": l["param"], "what": "value every iteration passes to the call",
+                                         "must_come_directly_from": want, "comes_directly_from": fed})
+        if not problems:
+            cp_ok += 1
+            continue
+        cp_bad += 1
+        if cp_bad <= 3:
+            ctx.report(f"comp:{c['id'].rsplit('-', 1)[0]}:{c['call']}", "counterexample",
+                       "a place lent inside a comprehension is not threaded through the loop leaf by leaf",
+                       {"case": c["id"], "src": c["src"], "problems": problems[:6],
+                        "reading": "atoms: [i, K, path] = leaf of function input K; [o, N, P, path] = leaf of output port P of HUGR node N (the borrowing call); "
+                                   "'directly' = through tuple packing/unpacking and Conditional/TailLoop boundaries only; after the loop a leaf is either the "
+                                   "input (zero iterations) or the last call's output, and each iteration passes the input (first) or the previous call's output",
+                        "replay": "write `src` to a file on PYTHONPATH=/verif/tools:<repo>/guppylang/src:<repo>/guppylang-internals/src, run main.compile_function() with /venv/bin/python and follow the TailLoop's inputs/outputs"})
+    rstats.update(comprehension_programs=len(cp), comprehension_ok=cp_ok, comprehension_leaves_checked=cp_leaves, comprehension_violations=cp_bad)
     rstats["rebind_violations"], rstats["comptime_violations"] = rb_bad, ct_bad
+    if deferred_proof_broken and not any(v.get("found_failing_input") for v in ctx.violations):
+        ctx.report(("translator:" + tr_err) if tr_err else "proof-broken:" + str(info["failed"]), "proof-broken", str(info["failed"]),
+                   {"coq_error": vlib.CoqResult(False, info["log"]).error_excerpt(),
+                    "searched": {"row_cases": len(tvc), "programs": len(cases), "rebind": len(rb), "comptime": len(ct), "comprehensions": len(cp)}},
+                   found_input=False)
     cov = proof_coverage(
         info, "make -f Makefile.C07 C07/Props.vo && coqc C07/Props.v (Print Assumptions)",
         ["Coq 8.16.1 kernel",
